@@ -177,8 +177,10 @@ func (nodes IndividualNodes) Similarity(other IndividualNodes, options Similarit
 		return similarities[i].similarity > similarities[j].similarity
 	})
 
-	// Find the winners.
-	found := map[*IndividualNode]bool{}
+	// Find the winners. The two sides are tracked separately: an individual
+	// that appears in both slices is matched once on each side.
+	foundA := map[*IndividualNode]bool{}
+	foundB := map[*IndividualNode]bool{}
 	winners := []*individualSimilarity{}
 	for _, s := range similarities {
 		// Once we have gone below the acceptable similarity we can bail out.
@@ -187,13 +189,13 @@ func (nodes IndividualNodes) Similarity(other IndividualNodes, options Similarit
 		}
 
 		// We can only proceed with a match if both sides are unmatched.
-		if found[s.a] == true || found[s.b] == true {
+		if foundA[s.a] == true || foundB[s.b] == true {
 			continue
 		}
 
 		winners = append(winners, s)
-		found[s.a] = true
-		found[s.b] = true
+		foundA[s.a] = true
+		foundB[s.b] = true
 	}
 
 	// Tally up what we have and fill out the missing individuals.
